@@ -1271,6 +1271,12 @@ def extract_app_exit(src: Path) -> str:
         def lin(stmts: List[ast.stmt], what: str, acc: List[str]) -> bool:
             for st in stmts:
                 if isinstance(st, (ast.For, ast.If)):
+                    # Only the trailers branch has conditional parts (the `te: trailers` loop, `more_trailers`); its program
+                    # lists every statement that may run.  `http.response.start` / early hints are straight-line: a state
+                    # assignment (or a send) under a condition must not be read as an unconditional one.
+                    if "http.response.trailers" not in what:
+                        fail(what, f"conditional statement in a straight-line branch: `{ast.unparse(st).splitlines()[0][:80]}`")
+                        return False
                     if not lin(st.body, what, acc) or not lin(st.orelse, what, acc):
                         return False
                 elif isinstance(st, ast.Break):
@@ -1283,6 +1289,8 @@ def extract_app_exit(src: Path) -> str:
                         acc.append(".assignResponse")
                     elif "build_and_validate_headers(" in val or "validate_header_part(" in val:
                         acc.append(".validate")
+                    elif isinstance(st.targets[0], ast.Name) and isinstance(st.value, ast.Call) and ast.unparse(st.value.func) == "int":
+                        acc.append(".validate")          # `status_code = int(…)`: a step that may raise and has no other effect
                     else:
                         fail(what, f"assignment not recognised: `{ast.unparse(st)[:80]}`")
                         return False
